@@ -591,6 +591,16 @@ class Interp:
             return True
         if c == 'false':
             return False
+        m = re.match(r'(?:core::num::<impl )?(u8|u16|u32|u64|usize|u128|i8|i16|i32|i64|isize|i128)>?::(MIN|MAX|BITS)$', c)
+        if m:
+            w = INT_W[m.group(1)]
+            if m.group(2) == 'BITS':
+                return w
+            if m.group(1) in SIGNED:
+                return -(1 << (w - 1)) if m.group(2) == 'MIN' else (1 << (w - 1)) - 1
+            return 0 if m.group(2) == 'MIN' else (1 << w) - 1
+        if c in ('char::MAX', 'std::char::MAX'):
+            return 0x10FFFF
         if c.startswith("'"):
             s = c[1:-1]
             if s.startswith('\\'):
